@@ -378,7 +378,9 @@ func genReq(t *rapid.T, label string, intact *bool) Req {
 		r.Method, r.Path = "POST", "/v2/collections/"+col+"/points/search"
 		b := map[string]any{"query": validQuery(t, label+"-q", 2), "limit": float64(rapid.IntRange(1, 100).Draw(t, label+"-lim"))}
 		if rapid.Bool().Draw(t, label+"-sel") {
-			b["select"] = rapid.SampledFrom([]any{[]any{"*"}, []any{"size", "price"}, []any{"meta.k", "missing"}, []any{"meta", "description"}, []any{"size.x"}, []any{"labels.1", "labels.x"}, []any{"size", "size.x"}, []any{"description.0.1"}, []any{"meta.k.z"}, []any{"", "."}}).Draw(t, label+"-selv")
+			b["select"] = rapid.SampledFrom([]any{[]any{"*"}, []any{"size", "price"}, []any{"meta.k", "missing"}, []any{"meta", "description"}, []any{"size.x"}, []any{"labels.1", "labels.x"}, []any{"size", "size.x"}, []any{"description.0.1"}, []any{"meta.k.z"}, []any{"", "."},
+				// a value and something below it, in both orders
+				[]any{"labels", "labels.0"}, []any{"labels.0", "labels"}, []any{"meta", "meta.k"}, []any{"meta.k", "meta"}, []any{"flat", "flat.1"}, []any{"size", "size.x", "size"}, []any{"description", "description.0"}}).Draw(t, label+"-selv")
 			if rapid.Bool().Draw(t, label+"-sort") {
 				// scalar, array, map, vector valued, nested and missing sort keys
 				sortProp := rapid.SampledFrom([]string{"size", "size", "price", "labels", "meta", "flat", "vector", "description", "meta.k", "missing", "category"}).Draw(t, label+"-sortp")
@@ -657,6 +659,16 @@ func genCase(t *rapid.T) Case {
 		// a collection created through v2 without the v1 vector index, then used through the v1 API
 		sch := fullSchema()
 		delete(sch, "vector")
+		switch rapid.IntRange(0, 2).Draw(t, "v1-on-v2-kind") {
+		case 1:
+			// "vector" is a flat index; a vectorVamana section of another dimension is left next to it (only
+			// the section named by the type is validated and used)
+			sch["vector"] = map[string]any{"type": "vectorFlat", "vectorFlat": map[string]any{"vectorSize": 2.0, "distanceMetric": "euclidean"},
+				"vectorVamana": map[string]any{"vectorSize": float64(rapid.SampledFrom([]int{1, 3}).Draw(t, "strayDim")), "distanceMetric": "euclidean", "searchSize": 75.0, "degreeBound": 64.0, "alpha": 1.2}}
+		case 2:
+			sch["vector"] = map[string]any{"type": "string", "string": map[string]any{"caseSensitive": true},
+				"vectorVamana": map[string]any{"vectorSize": 2.0, "distanceMetric": "euclidean", "searchSize": 75.0, "degreeBound": 64.0, "alpha": 1.2}}
+		}
 		jb, _ := json.Marshal(map[string]any{"id": "new1", "indexSchema": sch})
 		hd := map[string]string{"Content-Type": "application/json", "X-User-Id": "alice", "X-Plan-Id": plan}
 		c.Reqs = append(c.Reqs, Req{Method: "POST", Path: "/v2/collections", Headers: hd, Body: string(jb)})
@@ -666,11 +678,13 @@ func genCase(t *rapid.T) Case {
 		case 1:
 			c.Reqs = append(c.Reqs, Req{Method: "GET", Path: "/v1/collections/new1", Headers: hd})
 		case 2:
-			c.Reqs = append(c.Reqs, Req{Method: "POST", Path: "/v1/collections/new1/points/search", Headers: hd, Body: `{"vector":[1,2],"limit":3}`})
+			c.Reqs = append(c.Reqs, Req{Method: "POST", Path: "/v1/collections/new1/points/search", Headers: hd, Body: `{"vector":[1,2],"limit":3}`, MustReject: "v1 request on a collection without the v1 graph index"})
 		case 3:
-			c.Reqs = append(c.Reqs, Req{Method: "POST", Path: "/v1/collections/new1/points", Headers: hd, Body: `{"points":[{"vector":[1,2]}]}`})
+			vec := rapid.SampledFrom([]string{"[1,2]", "[1]", "[1,2,3]"}).Draw(t, "v1-on-v2-vec")
+			c.Reqs = append(c.Reqs, Req{Method: "POST", Path: "/v1/collections/new1/points", Headers: hd, Body: `{"points":[{"vector":` + vec + `}]}`, MustReject: "v1 request on a collection without the v1 graph index"},
+				Req{Method: "POST", Path: "/v1/collections/new1/points/search", Headers: hd, Body: `{"vector":` + vec + `,"limit":3}`, MustReject: "v1 request on a collection without the v1 graph index"})
 		default:
-			c.Reqs = append(c.Reqs, Req{Method: "DELETE", Path: "/v1/collections/new1/points", Headers: hd, Body: `{"ids":["` + poolIds[0] + `"]}`})
+			c.Reqs = append(c.Reqs, Req{Method: "DELETE", Path: "/v1/collections/new1/points", Headers: hd, Body: `{"ids":["` + poolIds[0] + `"]}`, MustReject: "v1 request on a collection without the v1 graph index"})
 		}
 		intact = false
 	}
